@@ -152,11 +152,11 @@ def build_traces(path, tier, seed):
         # transform length: default, extra powers of two, explicit even / odd n (the dominant period is read off THAT grid)
         nsel = int(rng.integers(5))
         if nsel == 1:
-            o.gen_fa_spectrum(p2_plus=int(rng.integers(1, 3)))
+            o.gen_fa_spectrum(p2_plus=gen.intlike(rng, int(rng.integers(1, 3))))
         elif nsel == 2:
-            o.gen_fa_spectrum(n=n + (n % 2) + 2 * int(rng.integers(0, 9)))
+            o.gen_fa_spectrum(n=gen.intlike(rng, n + (n % 2) + 2 * int(rng.integers(0, 9))))
         elif nsel == 3:
-            o.gen_fa_spectrum(n=n + 1 - (n % 2) + 2 * int(rng.integers(0, 9)))
+            o.gen_fa_spectrum(n=gen.intlike(rng, n + 1 - (n % 2) + 2 * int(rng.integers(0, 9))))
         elif nsel == 4:
             o.generate_fa_spectrum()
         with warnings.catch_warnings():
